@@ -436,6 +436,14 @@ def r2b_windows_unique(repo: Repo, rep):
                             L, _, BS = inner.partition("/")
                             counts[(L, BS)] = name
                 break
+            # the counts the index is decoded with follow the current batch sizes: __len__ (called by the loader at the start of a pass) recomputes them
+            for p in paths(ln.node, expand_self=False):
+                if p.ret is RAISE:
+                    continue
+                stale = [name for name in counts.values() if name not in p.attrs or dump(p.attrs[name]).replace(" ", "") != dump(next(iter([v for q in paths(init.node, expand_self=False) for k2, v in q.attrs.items() if k2 == name]), None)).replace(" ", "")]
+                rep.check(R3, not stale, ln.site(), ln.fq, "window counts are recomputed from the current batch sizes in __len__ (same formulas as the constructor)",
+                          f"not recomputed: {stale}", f"stale counts {stale}")
+                break
             # len must be radix * (count of the quotient digit's tensor); the remainder digit's radix is its own tensor's count
             for p in paths(ln.node, expand_self=False):
                 if p.ret is RAISE:
